@@ -249,7 +249,8 @@ def r4_accepts(cx):
             if arms is None or not (arms & RETURN_EVENTS):
                 continue
             extra = []
-            for gd in guards_of(m, g, b, mode="alias"):
+            from vlib.model import conditions_of
+            for gd in conditions_of(m, g, b, mode="alias"):
                 if gd.neutral:
                     continue
                 r = gd.root
